@@ -604,22 +604,56 @@ def ld_mult_rule(ctx):
     else:
         param = fi.params()[0][0]
         forms = set()
+        from ..prodnf import NotMonomial, monomial
+
         for path in paths_of(fi.node):
             if path.kind != "return":
                 continue
-            t = norm_text(path.ret).replace(" ", "")
-            if t in ("self._log_abs_scale.expand(%s).sum()" % param,):
-                forms.add("expand-sum")
-            elif t in ("self._log_abs_scale*torch.Size(%s).numel()" % param, "torch.Size(%s).numel()*self._log_abs_scale" % param):
-                forms.add("numel")
+            r = path.ret
+            verdict = None
+            # (a) log|scale| broadcast to the event shape, then summed over all of it
+            from ..astutil import as_reduction
+
+            red = as_reduction(r, ("sum",))
+            if red is not None and red[2] is None and isinstance(red[1], ast.Call) and _last(red[1]) in ("expand", "broadcast_to") and isinstance(red[1].func, ast.Attribute):
+                base, shp = red[1].func.value, red[1].args
+                if norm_text(base) == "self._log_abs_scale" and len(shp) == 1 and norm_text(shp[0]) in (param, "torch.Size(%s)" % param, "tuple(%s)" % param):
+                    verdict = "expand-sum"
+            # (b) a scalar log|scale| times the number of event elements
+            if verdict is None:
+                try:
+                    c, m = monomial(r)
+                    atoms = {a[1] if a[0] == "leaf" else None: k for a, k in m.items()}
+                    numel_forms = ("torch.Size(%s).numel()" % param, "int(np.prod(%s))" % param, "np.prod(%s)" % param, "math.prod(%s)" % param)
+                    if c == 1 and len(atoms) == 2 and atoms.get("self._log_abs_scale") == 1 and any(atoms.get(nf) == 1 for nf in numel_forms):
+                        verdict = "numel"
+                except NotMonomial:
+                    pass
+            if verdict is not None:
+                forms.add(verdict)
             else:
                 res.fail(Finding("LD-MULT", fi.module, fi.qualname, path.ret_node, "the log-det of a pointwise affine map on inputs of event shape S must be log|scale| counted once per element of S (expand(S).sum() or * numel(S))"))
         if forms:
             res.ok("PointwiseAffineTransform: log|scale| counted once per event element (%s)" % ", ".join(sorted(forms)))
-        for direction in ("forward", "inverse"):
+        for direction, want_sign in (("forward", 1), ("inverse", -1)):
             m = pa.methods.get(direction)
-            txt = norm_text(m.node).replace(" ", "")
-            if "batch_size,*batch_shape=inputs.size()" in txt and "self._batch_logabsdet(batch_shape).expand(batch_size)" in txt:
+            x = m.params()[0][0]
+            shape_forms = ("__rest__(%s.size(), 1)" % x, "__rest__(%s.shape, 1)" % x, "%s.size()[1:]" % x, "%s.shape[1:]" % x)
+            batch_forms = ("__component__(%s.size(), 0)" % x, "__component__(%s.shape, 0)" % x, "%s.shape[0]" % x, "%s.size(0)" % x, "%s.size()[0]" % x)
+            okd = None
+            for path in paths_of(m.node):
+                if path.kind != "return" or not (isinstance(path.ret, ast.Tuple) and len(path.ret.elts) == 2):
+                    continue
+                terms = signed_terms(path.ret.elts[1])
+                good = False
+                if len(terms) == 1 and terms[0][0] == want_sign:
+                    t = terms[0][1]
+                    if isinstance(t, ast.Call) and _last(t) in ("expand", "repeat") and isinstance(t.func, ast.Attribute) and len(t.args) == 1 and norm_text(t.args[0]) in batch_forms:
+                        inner = t.func.value
+                        if isinstance(inner, ast.Call) and attr_chain(inner.func) == "self._batch_logabsdet" and len(inner.args) == 1 and norm_text(inner.args[0]) in shape_forms:
+                            good = True
+                okd = good if okd is None else (okd and good)
+            if okd:
                 res.ok("PointwiseAffineTransform.%s: event shape = inputs.size()[1:]" % direction)
             else:
                 res.fail(Finding("LD-MULT", m.module, m.qualname, m.node, "the event shape passed to _batch_logabsdet must be inputs.size()[1:] and the result expanded to the batch", construct="event shape in %s" % direction))
@@ -735,6 +769,8 @@ def inv_config_rule(ctx):
                         cand = l.right
                     elif _is_channels(l) and isinstance(c.ops[0], (ast.Lt, ast.LtE)):
                         cand = r
+                    elif isinstance(l, ast.BinOp) and isinstance(l.op, ast.FloorDiv) and _is_channels(l.left) and isinstance(c.ops[0], ast.Lt) and const_number(r) == 1:
+                        cand = l.right  # c // q < 1  <=>  c < q
                     if cand is None:
                         continue
                     checked += 1
